@@ -41,6 +41,17 @@ pub fn props() -> Vec<Prop> {
         stub: STUB_COMMON,
         assumptions: ASSUME_COMMON,
     }, Prop {
+        id: "C02",
+        scenarios: &[("c02a", 1), ("c02b", 2)],
+        quick_runs: 30_000,
+        thorough_runs: 900_000,
+        quick_cap_s: 60.0,
+        thorough_cap_s: 900.0,
+        probes: &[],
+        real: &["may::coroutine::park/park_timeout/unpark (Park)", "may::sync::Blocker (Park and ThreadPark token loop)", "timer thread + timeout list", "cancel", "scheduler"],
+        stub: STUB_COMMON,
+        assumptions: ASSUME_COMMON,
+    }, Prop {
         id: "C03",
         scenarios: &[("c03", 1)],
         quick_runs: 40_000,
